@@ -148,18 +148,29 @@ class Scenario:
         return self.main.done() and self.loop.ready_count() == 0 and not [j for j in self.loop.pending_jobs()]
 
     # -- observations -----------------------------------------------------------------
+    @staticmethod
+    def _is_write_open(op) -> bool:
+        # a save may write the file itself or a sibling it later renames onto it (atomic replace)
+        return op[0] == "open" and op[1].startswith(PATH) and any(c in op[2] for c in "wax+")
+
     def save_starts(self) -> list:
-        return [t for op, t in zip(self.vfs.log, self.vfs.log.times) if op[0] == "open" and op[1] == PATH and "w" in op[2]]
+        return [t for op, t in zip(self.vfs.log, self.vfs.log.times) if self._is_write_open(op)]
 
     def saves_completed(self) -> int:
+        """A save is complete when the file it wrote directly is closed, or when a sibling is renamed onto it."""
         n = 0
-        open_w = False
+        open_w: set[str] = set()
         for op in self.vfs.log:
-            if op[0] == "open" and op[1] == PATH:
-                open_w = "w" in op[2]
-            elif op[0] == "close" and op[1] == PATH and open_w:
+            if self._is_write_open(op):
+                open_w.add(op[1])
+            elif op[0] == "open":
+                open_w.discard(op[1])
+            elif op[0] == "close" and op[1] in open_w:
+                open_w.discard(op[1])
+                if op[1] == PATH:
+                    n += 1
+            elif op[0] in ("replace", "rename") and op[2] == PATH:
                 n += 1
-                open_w = False
         return n
 
     def verdict(self, hang: bool) -> list:
